@@ -66,7 +66,7 @@ Definition is_constr (tagbuf : list Z) : bool :=
 
 Inductive rtl :=
 | RFinished                      (* limit == 0 *)
-| REof
+| REof (off : Z)
 | RFail (d : diag)
 | ROk (tagbuf : list Z) (tag len : Z) (tlen llen : nat) (rest : list Z) (off : Z).
 
@@ -79,7 +79,7 @@ Fixpoint read_tl (limit : Z) (eoc : bool) (tagbuf : list Z) (inp : list Z) (off 
   else if 32 <=? zlen tagbuf then RFail (DTooLongBuf (zlen tagbuf) off)
   else
     match inp with
-    | [] => if (0 <? limit) || eoc then RFail (DEofTL off) else REof
+    | [] => if (0 <? limit) || eoc then RFail (DEofTL off) else REof off
     | ch :: inp' =>
         let tagbuf' := tagbuf ++ [ch] in
         let off' := off + 1 in
@@ -176,7 +176,7 @@ Definition pd_body (self : loop_t) : loop_t :=
   fun level limit esize eoc fsize pdc inp off =>
   match read_tl limit eoc [] inp off with
   | RFinished => PDone [] PD_FINISHED fsize inp off
-  | REof => PDone [] PD_EOF fsize [] off
+  | REof off' => PDone [] PD_EOF fsize [] off'
   | RFail d => PFail [] d
   | ROk tagbuf tag len tlen llen inp1 off1 =>
       pd_tlv self level limit esize eoc fsize pdc tagbuf tag len (Z.of_nat tlen + Z.of_nat llen) inp1 off1
